@@ -600,17 +600,29 @@ func GenHistory(t *rapid.T, max int) []Op {
 	return rapid.SliceOfN(rapid.Custom(func(t *rapid.T) Op { return GenOp(t, NamePreserving) }), 1, max).Draw(t, "history")
 }
 
+// LastApplied is the kind of the last operation of the most recent Replay that was actually called
+// ("failed:<kind>" when it reported an error and the tree was read again from its text).
+var LastApplied string
+
 // Replay applies a history to a tree (a step that fails restarts from the text before it, as a
 // caller that checks errors would) and returns the edited tree together with the model read back
 // from it through the traversal API. ok is false when the result is no longer a tree a check
 // can start from (fewer than 3 tips, a root with fewer than 2 children, duplicate names).
 func Replay(t *tree.Tree, hist []Op) (out *tree.Tree, model *ref.Node, ok bool, err error) {
 	st := State{T: t}
+	LastApplied = ""
 	for _, op := range hist {
 		before := st.T.Newick()
-		if status, _ := Apply(&st, op); status == Failed {
+		status, _ := Apply(&st, op)
+		if status == Failed {
 			if st.T, err = gt.Parse(before); err != nil {
 				return nil, nil, false, err
+			}
+		}
+		if status != Skipped {
+			LastApplied = op.Kind
+			if status == Failed {
+				LastApplied = "failed:" + op.Kind
 			}
 		}
 	}
